@@ -124,6 +124,13 @@ impl<C: Config> Engine<C> {
     pub(in crate::engine::computation_graph) async fn acquire_active_input_session_guard(
         &self,
     ) -> (WriteTransaction<C>, ActiveInputSessionGuard) {
+        #[cfg(feature = "verif")]
+        qbice_storage::verif::task_point(
+            "session_at_lock",
+            qbice_storage::verif::PointKind::Await,
+        )
+        .await;
+
         let mut write_buffer = self
             .computation_graph
             .database
@@ -152,13 +159,6 @@ impl<C: Config> Engine<C> {
             .timestamp_map
             .insert((), Timestamp(new_timestamp), &mut write_buffer)
             .await;
-
-        #[cfg(feature = "verif")]
-        qbice_storage::verif::task_point(
-            "session_at_lock",
-            qbice_storage::verif::PointKind::Await,
-        )
-        .await;
 
         let guard = self
             .computation_graph
